@@ -323,6 +323,14 @@ def run(res, tier):
     reduce_coverage(facts, res)
     apply_to_all(facts, res)
     kernel_vector_lifetime(facts, res)
+    # every operator application of a task executor goes through its own stages and its own per-worker kernels (the objects applyToAllKernels visits)
+    import c03
+    import stages
+    res.rule("C18.3b execute() of the task executors touches the tree only through its stage functions and never constructs anything from an element of the per-worker kernel vector")
+    for cls in ("TbfOpenmpAlgorithm", "TbfOpenmpAlgorithmTsm"):
+        ex = stages.ExecutorSummary(facts, cls)
+        ns = c03.only_through_stages(facts, ex, res, R="C18.3.counted-in-visited-kernels")
+        res.instance("C18.3.counted-in-visited-kernels", cls + "::execute", facts.loc(ex.execute), "%d stage calls, no other call receives the tree" % ns)
     for comp in (("g++",) if tier == "quick" else ("g++", "clang++")):
         rc, err = tbf.compile_witness(MERGE_TU, compiler=comp, name="c18_merge.cpp", max_errors=5)
         res.instance("C18.4.merge-witness", comp, "witness:c18_merge", "counter/timer/counter(timer)/printer x sequential/OpenMP/target-source, README merge")
